@@ -154,6 +154,21 @@ func (l *Loaded) FuncDecl(rel, name string) (*ast.FuncDecl, *packages.Package) {
 			}
 		}
 	}
+	// the same code as a function instead of a method, or on another receiver type: the one
+	// declaration of that bare name in the package, if there is exactly one
+	var only *ast.FuncDecl
+	cnt := 0
+	for _, f := range p.Syntax {
+		for _, d := range f.Decls {
+			if fd, ok := d.(*ast.FuncDecl); ok && fd.Name.Name == fn && fd.Body != nil {
+				only = fd
+				cnt++
+			}
+		}
+	}
+	if cnt == 1 {
+		return only, p
+	}
 	return nil, p
 }
 
@@ -195,6 +210,22 @@ func (l *Loaded) SSAPkg(rel string) *ssa.Package {
 
 // SSAFunc finds a function or method: "Func", "(*T).M", "T.M".
 func (l *Loaded) SSAFunc(rel, name string) *ssa.Function {
+	if f := l.ssaFuncExact(rel, name); f != nil {
+		return f
+	}
+	// fall back on the one declaration of that bare name (function <-> method, other receiver)
+	fd, p := l.FuncDecl(rel, name)
+	if fd == nil || p == nil {
+		return nil
+	}
+	obj, _ := p.TypesInfo.Defs[fd.Name].(*types.Func)
+	if obj == nil {
+		return nil
+	}
+	return l.SSA().FuncValue(obj)
+}
+
+func (l *Loaded) ssaFuncExact(rel, name string) *ssa.Function {
 	sp := l.SSAPkg(rel)
 	if sp == nil {
 		return nil
